@@ -248,7 +248,7 @@ def walk(items):
             yield from walk(it["items"])
 
 
-def gen_program(r, n=None, feats=None, lo=3, hi=14, types=None, p_rev=1.0):
+def gen_program(r, n=None, feats=None, lo=3, hi=14, types=None, p_rev=1.0, p_nodefault=0.0):
     """Returns a structured program dict."""
     if n is None:
         n = r.randint(lo, hi)
@@ -259,6 +259,11 @@ def gen_program(r, n=None, feats=None, lo=3, hi=14, types=None, p_rev=1.0):
     items = g.block(n, 0)
     prog = {"mainmenu": "T", "items": items, "feats": feats}
     configs = [it for it in walk(items) if it["k"] == "config"]
+    if p_nodefault:
+        # only for properties whose quantifier has no "fallback default" clause: numeric options without any default
+        for c in configs:
+            if c["type"] in RANGES and r.random() < p_nodefault:
+                c["defaults"] = []
     rank = {c["name"]: i for i, c in enumerate(configs)}
     # rank of the first member of the enclosing choice block end (targets must lie after the block)
     block_end = {}
